@@ -62,8 +62,10 @@ func bnExpired() { atomic.AddInt32(&bnTimeouts, 1) }
 // bnOffPaths counts replayed paths on which the code left the model's
 // prediction (0 on the unchanged tree).  The first bnOffKeep of them are
 // still fed their remaining steps (judged by Props alone); after that a
-// path is abandoned at its first deviating step and waits are cut, so that
-// a tree that deviates everywhere still reports within minutes.
+// path is abandoned at its first deviating step and waits are cut (to 1 s,
+// still >10000x normal), and after 4*bnOffKeep deviating paths the remaining
+// paths are not executed at all (they are written with no steps), so that a
+// tree that deviates everywhere still reports within minutes.
 var bnOffPaths int32
 
 const bnOffKeep = 48
@@ -356,7 +358,7 @@ func (e *bnEnv) settle(pred *bnObs) {
 	if e.off {
 		limit = bnShortT
 	} else if atomic.LoadInt32(&bnOffPaths) >= bnOffKeep {
-		limit = 30 * time.Millisecond
+		limit = 100 * time.Millisecond
 	}
 	deadline := time.Now().Add(limit)
 	for i := 0; ; i++ {
@@ -390,7 +392,7 @@ func (e *bnEnv) exec(in bnStepIn) bnStepOut {
 	if e.off {
 		long = 200 * time.Millisecond
 	} else if atomic.LoadInt32(&bnOffPaths) >= bnOffKeep {
-		long = 250 * time.Millisecond
+		long = time.Second
 	}
 	switch a.Op {
 	case "Subscribe":
@@ -493,13 +495,19 @@ func (e *bnEnv) exec(in bnStepIn) bnStepOut {
 				continue
 			}
 			if e.ended[s] {
-				for e.readOne(s, long) == 1 {
+				r := 1
+				for r == 1 {
+					r = e.readOne(s, long)
+				}
+				if r == -1 {
+					e.off = true
 				}
 				continue
 			}
 			want := bnExpLen(e.regH[s], e.regK[s], e.emitted)
 			for len(e.recv[s]) < want {
 				if e.readOne(s, long) != 1 {
+					e.off = true
 					break
 				}
 			}
@@ -525,6 +533,11 @@ func (e *bnEnv) exec(in bnStepIn) bnStepOut {
 
 func bnRunPath(p bnPathIn) (out bnPathOut) {
 	out.ID = p.ID
+	out.Steps = []bnStepOut{}
+	if atomic.LoadInt32(&bnOffPaths) >= 4*bnOffKeep {
+		out.Info = "not executed: too many deviating paths before this one"
+		return
+	}
 	n := 2
 	if p.InitObs != nil && len(p.InitObs.Sub) > 0 {
 		n = len(p.InitObs.Sub)
@@ -721,6 +734,7 @@ type bnSubPlan struct {
 
 func bnFreeRun(id int, seed int64, minEv, maxEv int) (out bnPathOut) {
 	out.ID, out.Mode = id, "free"
+	out.Steps = []bnStepOut{}
 	rng := rand.New(rand.NewSource(seed))
 	n := 2 + rng.Intn(3)
 	nev := minEv + rng.Intn(maxEv-minEv+1)
@@ -1028,6 +1042,7 @@ func TestVerifBlockNtfnsFree(t *testing.T) {
 		defer func() {
 			if r := recover(); r != nil {
 				results[i].ID = i
+				results[i].Steps = []bnStepOut{}
 				results[i].Error = fmt.Sprintf("driver panic: %v\n%s", r, bnDump())
 			}
 		}()
